@@ -105,6 +105,22 @@ def units(tier):
         lines = _lines(p)
         f08 = G.is_f08(p)
         for li, l in enumerate(lines):
+            # one surplus parenthesis at the end of every statement and after its first word
+            # (also of statements that have no parentheses at all)
+            if li > 0 or p.get("unit") != "program":
+                pass
+            if l.strip() not in ("continue", "call a", "a = b2 + 1") or li == 1:
+                ends = [len(l)]
+                w = l.strip().split(" ")[0]
+                first = l.find(w) + len(w)
+                if first < len(l) and w[-1:].isalpha():
+                    ends.append(first)
+                for k in ends:
+                    for op in ("ins(", "ins)"):
+                        rot += 1
+                        if q and rot % 2 and k != len(l):
+                            continue
+                        us.append(dict(h="paren", prog=p, line=li, col=k, op=op, std="f2008" if (f08 or rot % 2) else "f2003", cost=1))
             pos = _paren_positions(l)
             if not pos:
                 continue
